@@ -140,7 +140,7 @@ def invalid_element(tag, compressed, how, rng):
 def worker(sh):
     rng = sh.rng
     lines, meta = [], []
-    ls = [0, 1, 2, 3, 5, 8, 20] if sh.index == 0 else [rng.randrange(0, 21) for _ in range(sh.pick(2, 12))]
+    ls = [0, 1, 2, 3, 5, 8, 20] if sh.index == 0 else [rng.randrange(0, 21) for _ in range(sh.pick(2, 60))]
     for l in ls:
         for sig in (0, 1):
             if sh.index and rng.random() < 0.5:
